@@ -12,7 +12,7 @@ Generated (Hypothesis, every choice is part of the JSON case)
   pack   every shipped non-BurnMan `TidalPy/WorldPack/*.toml` (17 entries, enumerated in `fixed_cases`,
          the list is verified against the directory in `selftest`), layered and not.
   chain  1..6 derivations applied one after the other: `build_from_world` (new_config = {} | albedo |
-         one layer's density | one layer's slices; the new name absent, given as argument or inside
+         one layer's density | one layer's slices | a new world radius when the top layer's geometry is implied; the new name absent, given as argument or inside
          new_config, equal to the parent's name or taken from a pool that contains `X_variant`,
          `X_variant_2`, `X_variant_3`, `a_variant_b`, `_variant`, ...) and `scale_from_world`
          (radius_scale log-uniform in [0.1,10], with/without new_name).
@@ -129,7 +129,7 @@ LAYER_TYPES = ['iron', 'rock', 'ice']
 GEO_SPECS = ['radius', 'thickness', 'both', 'implicit']
 MASS_SPECS = ['density', 'density_bulk', 'mass', 'mass_frac']
 NAME_MODES = ['none', 'arg_same', 'arg_pool', 'cfg_same', 'cfg_pool']
-CHANGES = ['none', 'albedo', 'density', 'slices']
+CHANGES = ['none', 'albedo', 'density', 'slices', 'world_radius']
 WB_SUFFIX = os.path.join('world_builder', 'world_builder.py')
 
 
@@ -157,7 +157,7 @@ def _gen_case(draw):
     plain = draw(st.sampled_from([True, True, True, False]))     # plain = shipped-template style (radius + density)
     layers = []
     for i in range(n):
-        geo_choices = ['radius'] if plain else (GEO_SPECS if (i == n - 1 and i > 0) else GEO_SPECS[:3])
+        geo_choices = ['radius'] if plain else (GEO_SPECS + ['implicit', 'implicit'] if (i == n - 1 and i > 0) else GEO_SPECS[:3])
         mass_choices = ['density'] if plain else (MASS_SPECS if mass_given else MASS_SPECS[:3])
         layers.append({
             'weight': draw(st.floats(0.02, 1.0)),
@@ -168,6 +168,11 @@ def _gen_case(draw):
             'mass_spec': draw(st.sampled_from(mass_choices)),
             'mass_frac': draw(st.floats(0.01, 0.9)),
         })
+    chain = draw(st.lists(_step_strategy(True), min_size=1, max_size=6))
+    if layers[-1]['geo'] == 'implicit':
+        # worlds whose top layer follows the surface: more of the derivations change the world radius
+        chain = [dict(s_, change='world_radius') if s_['op'] == 'build' and s_['change'] in ('none', 'albedo') and draw(st.booleans())
+                 else s_ for s_ in chain]
     return {
         'kind': 'gen',
         'name': draw(st.sampled_from(NAME_POOL)),
@@ -175,7 +180,7 @@ def _gen_case(draw):
         'log_radius': draw(st.floats(4.0, 8.0)),
         'world_density': draw(st.floats(500.0, 20000.0)) if mass_given else None,
         'layers': layers,
-        'chain': draw(st.lists(_step_strategy(True), min_size=1, max_size=6)),
+        'chain': chain,
     }
 
 
@@ -244,7 +249,7 @@ def fixed_cases(tier):
 
 def required_labels(tier):
     return (['kind:gen', 'kind:pack', 'op:build', 'op:scale', 'mass:derived', 'mass:given', 'naming:variant_number',
-             'root:variant_name', 'scale:<1', 'scale:>=1', 'chain:1', 'chain:6']
+             'root:variant_name', 'scale:<1', 'scale:>=1', 'chain:1', 'chain:6', 'change:world_radius']
             + ['layers:%d' % n for n in range(1, 7)] + ['name:' + m for m in NAME_MODES]
             + ['geo:' + g for g in GEO_SPECS] + ['massspec:' + m for m in MASS_SPECS]
             + ['pack:' + e for e in PACK])
@@ -667,6 +672,16 @@ def evaluate(case):
                 new_config['layers'] = {lnames[s['layer'] % len(lnames)]: {'density': 300.0 + 19700.0 * float(s['value'])}}
             elif s['change'] == 'slices' and layered:
                 new_config['layers'] = {lnames[s['layer'] % len(lnames)]: {'slices': 5 + int(round(55 * float(s['value'])))}}
+            elif s['change'] == 'world_radius' and layered:
+                # a new world radius is a valid derived configuration only when the top layer's geometry is implied (it then
+                # follows the surface); with an explicit top radius / thickness the override would contradict the layer table
+                top_cfg = parent.config['layers'][lnames[-1]]
+                if len(lnames) >= 2 and top_cfg.get('radius') is None and top_cfg.get('thickness') is None:
+                    r_below = float(parent.layers[-2].radius)
+                    new_config['radius'] = r_below + (float(parent.radius) - r_below) * (0.2 + 1.6 * float(s['value']))
+                    c.label('change:world_radius')
+                else:
+                    c.label('change:world_radius_not_applicable')
         elif not layered:
             return discard('scale_from_world on a world without layers')
         # model of the naming branch (labels only)
